@@ -2,6 +2,7 @@ import FluteModel.Lemmas.SessionObjRecv
 import FluteModel.Lemmas.SessionFlush
 import FluteModel.Lemmas.SessionBlock
 import FluteModel.Lemmas.SessionNoCode
+import FluteModel.Lemmas.SessionLifeLink
 import FluteModel.Lemmas.NoCodeSession
 import FluteModel.Props.C09
 /-
@@ -16,6 +17,13 @@ import FluteModel.Props.C09
   states (`ReachBlk`: built by `init`, fed genuine symbols) `BlockDecoder::push` adds the ESI to the held set, `completed` is
   `Setting.dec` of the held ESIs, and a completed block has its source block.  (c) is to `Setting.dec` what `GSess.Laws.codec` is to the
   bytes: the FEC crates are not modelled, `Params.codec` is a parameter.
+  SCOPE OF (c): PROVED for Compact No-Code (`codec_contract_holds_for_nocode`, any `Params.codec`; concrete instance with every
+  hypothesis discharged: `headline_theorems_apply`, `composed_theorem_applies`).  For RaptorQ / Raptor it is a genuine contract on
+  `Params.codec` (the decoder model appends the pushed (ESI, symbol) pairs; `completed` = "the library returned a block").  For
+  REED-SOLOMON it holds only while blocks complete from their k source symbols: `reconstruct` fills the missing shards of the model's
+  decoder IN PLACE, so after a completing push that used parity the decoder "holds" ESIs that were never received and the membership
+  clause of `CodecDec.push` fails - the relation `SimB.got` would have to forget the ESI set of completed blocks (only "decodable" and
+  "non-empty" are needed of them); NOT DONE, so the link says nothing about RS objects completed through reconstruction.
     * `receiver_simulation`       - MAIN THEOREM: over every genuine history of one object the ObjRecv run returns and its final state
                                     is related to the Session model's (`Rel`: live object simulated `SimCore`, dead object gone,
                                     writer calls open / complete / error / interrupted = the counters);
@@ -169,6 +177,43 @@ example :
      | .error _ => none) = some (os.opens, os.completes, os.errors, os.interrupts, [1, 2, 3, 4, 5, 6]) ∧
     os.completes = 1 := by decide
 
+/-! ### from `Session.runObj` (what the C01 / C02 / C16 theorems of the Session model speak about) to ObjRecv's bytes -/
+
+/-- ONE LIFE of the object in `Session.runObj` makes the writer calls of the object-level run `objRun` over the translated events
+    (`lifeL`: creation by the first packet, attach at creation when an FDT instance already lists the TOI, `Ev.fdt true` = attach) -/
+theorem runObj_life_is_objRun (Z : Setting) (st : Session.OState) (evs : List Session.Ev) (hobj : st.obj = none)
+    (hcpl : st.completed = false) (h0 : SameCounters st { obj := some Session.rx0 })
+    (hlife : aliveRun Z { obj := some Session.rx0 } (lifeL false st.age evs) = true) :
+    SameCounters (Session.runObj Z.dec Z.rc Z.oc st evs) (objRun Z { obj := some Session.rx0 } (lifeL false st.age evs)) :=
+  life_new Z evs st _ hobj hcpl rfl h0 hlife
+
+/-- **THE TWO LAYERS COMPOSED: a C02 statement about `Session.runObj` that reaches the bytes of the line-by-line model.**
+    If the Session model's receiver, started without the object (TOI not in the completed registry), reports `complete` within one
+    life of the object, then the `ObjRecv` run over the corresponding genuine packets / FDT attach returns, its writer was told
+    `complete`, and the bytes the writer accepted are exactly the object -/
+theorem session_runObj_complete_reaches_objrecv_bytes (Z : Setting) (hZ : Z.OK) (hC : CodecDec Z) (toi : Nat)
+    (st : Session.OState) (evs : List Session.Ev) (ops : List Op) (hobj : st.obj = none) (hcpl : st.completed = false)
+    (h0 : SameCounters st { obj := some Session.rx0 })
+    (hh : Hist Z ops (lifeL false st.age evs))
+    (hlife : aliveRun Z { obj := some Session.rx0 } (lifeL false st.age evs) = true)
+    (hc : 0 < (Session.runObj Z.dec Z.rc Z.oc st evs).completes) :
+    ∃ st', runL Z.P (St.new toi Z.maxSize) ops = .ok st' ∧ ¬ noComplete st'.out ∧ st'.written = Z.S.T := by
+  have h := runObj_life_is_objRun Z st evs hobj hcpl h0 hlife
+  exact session_complete_is_exact Z hZ hC toi ops _ hh (by rw [← h.2.1]; exact hc)
+
+/-- **the conclusion of the C02 theorems of the Session model, carried down to the bytes of ObjRecv.**  `Session.observe` is the
+    observable the theorems `C02.recoverable_delivers_*` / C01 / C16 conclude about (`1 ≤ (observe ..).completes`): `runObj` from the
+    empty state over `eventsFor` of the received packet stream.  If it reports `complete` and the events are one life of the object
+    (`aliveRun`) over genuine packets / FDT entries (`Hist`), the line-by-line model's writer was told `complete` with exactly the
+    object's bytes -/
+theorem observe_complete_reaches_objrecv_bytes (Z : Setting) (hZ : Z.OK) (hC : CodecDec Z) (toi : Nat)
+    (decF : (k p : Nat) → List Nat → Bool) (s : Session.SessCfg) (ps : List Session.Pkt) (ops : List Op)
+    (hh : Hist Z ops (lifeL false none (Session.eventsFor decF Z.rc s Z.oc Session.fdtRx0 ps)))
+    (hlife : aliveRun Z { obj := some Session.rx0 } (lifeL false none (Session.eventsFor decF Z.rc s Z.oc Session.fdtRx0 ps)) = true)
+    (hc : 1 ≤ (Session.observe decF Z.dec Z.rc s Z.oc ps).completes) :
+    ∃ st', runL Z.P (St.new toi Z.maxSize) ops = .ok st' ∧ ¬ noComplete st'.out ∧ st'.written = Z.S.T :=
+  session_runObj_complete_reaches_objrecv_bytes Z hZ hC toi {} _ ops rfl rfl ⟨rfl, rfl, rfl, rfl⟩ hh hlife hc
+
 /-! ### NON-VACUITY: every hypothesis of the headline theorems holds for a concrete setting and a concrete history -/
 
 /-- the codec contract holds for Compact No-Code (any `Params.codec`) -/
@@ -276,5 +321,16 @@ theorem hist0 : Hist Z0 ops0 evs0 :=
 theorem headline_theorems_apply :
     ∃ st', runL Z0.P (St.new 1 1000) ops0 = .ok st' ∧ ¬ noComplete st'.out ∧ st'.written = [1, 2, 3, 4, 5, 6] :=
   session_complete_is_exact Z0 Z0_ok (codecDec_noCode Z0 Z0_nocode) 1 ops0 evs0 hist0 (by decide)
+
+/-- the composed theorem applies: an FDT instance listing the object, then block 1, half of block 0, a second FDT instance, the rest
+    (`Session.runObj` from the empty state; the object is attached at creation) -/
+theorem composed_theorem_applies :
+    ∃ st', runL Z0.P (St.new 1 1000)
+        [.attach 7 (some fe0), .push (pk0 1 0), .push (pk0 0 1), .attach 8 (some fe0), .push (pk0 0 0)] = .ok st' ∧
+      ¬ noComplete st'.out ∧ st'.written = [1, 2, 3, 4, 5, 6] :=
+  session_runObj_complete_reaches_objrecv_bytes Z0 Z0_ok (codecDec_noCode Z0 Z0_nocode) 1 {}
+    [.fdt true, .pkt ⟨1, 0, false⟩, .pkt ⟨0, 1, false⟩, .fdt true, .pkt ⟨0, 0, false⟩] _ rfl rfl ⟨rfl, rfl, rfl, rfl⟩
+    (.cons (.att fileOK0) (.cons (.pkt genEv0_10) (.cons (.pkt genEv0_01) (.cons (.att fileOK0) (.cons (.pkt genEv0_00) .nil)))))
+    (by decide) (by decide)
 
 end Flute.Props.C02.Link
